@@ -12,7 +12,7 @@ RULE = ('every generated program (reference grammar of C01 and the analysable un
         'respelling kinds)')
 
 TRIVIA = [' ', '  ', '\t', '\n', '\r\n', ' \n ', '\n\n', ' (* c *) ', '(* c *)', ' (* ( *) ', '(***)', ' (* a\nb *) ', '(* é *)',
-          '\t(* x ** y *)\t', ' (**) ', '\n(* l1\r\nl2 *)\n', ' \f ', '(* ; END_IF *)']
+          '\t(* x ** y *)\t', ' (**) ', ' (** d **) ', '(* e ***)', '\n(* l1\r\nl2 *)\n', ' \f ', '(* ; END_IF *)']
 
 
 def respell_word(rng, w, mode):
